@@ -26,6 +26,19 @@ MUTANTS = [
     ("C15", "areneigh-no-wrap-test", P + "rdgridspace.py", "        if self._boundary_conditions[\"z\"] == \"periodical\" :\n            dz = min(dz, abs(self.d-dz))", "        dz = min(dz, abs(self.d-dz))", "C15.DISP"),
     ("C01", "get-edge-directed", P + "rdgraphspace.py", "            if (edge.i==i and edge.j==j) or (edge.i==j and edge.j==i) :", "            if (edge.i==i and edge.j==j) :", "C01.NEIGH"),
     ("C01", "graph-neighbours-above-only", P + "kinetics.py", "        if j != position :\n            if system.space.get_edge(position, j) is not None :", "        if j > position :\n            if system.space.get_edge(position, j) is not None :", "C01.NEIGH"),
+    # ---- rules added in round 7
+    ("C01", "rates-skipped-in-empty-node", E + "EulerGraph.hpp", "            for(int r=0; r<n_reactions; r++)\n                rr[r] = ReactionRate(i, r);", "            bool empty_node = (mesh_x[i*n_species] == 0);\n            for(int r=0; r<n_reactions; r++)\n                if(!empty_node) rr[r] = ReactionRate(i, r);", "C01.PHASE"),
+    ("C06", "computed-dtype", P + "units.py", "            self._value = np.array(v, dtype=float)", "            self._value = np.array(v, dtype=getattr(v, \"dtype\", float))", "C06.LOSSY"),
+    ("C06", "set-at-unconverted", P + "units.py", "            self.value[i] = v.convert(self.units).value", "            self.value[i] = v.value", "C06.SET-AT"),
+    ("C08", "sample-per-run-slice", P + "simulate.py", "            continue_simulation = engine.run(1000)\n", "            continue_simulation = engine.run(1000)\n            engine.sample()\n", "C08.DRIVER"),
+    ("C09", "tauleap-dead-state-exit", E + "TauLeap3D.hpp", "        Compute_nevt();\n        Apply_nevt();", "        Compute_nevt();\n        if(mesh_nr.size() == 0) FlagAsComplete();\n        Apply_nevt();", "C09.COMPLETE"),
+    ("C11", "amount-cast-to-int", E + "TauLeap3D.hpp", "        Compute_nevt();\n        Apply_nevt();", "        Compute_nevt();\n        int first = static_cast<int>(mesh_x[0]); (void)first;\n        Apply_nevt();", "C11.FPCAST"),
+    ("C12", "path-prefers-working-directory", P + "filepath.py", "        if pathlib.Path(path).is_absolute() :", "        if pathlib.Path(path).is_absolute() or pathlib.Path(path).exists() :", "C12.FILEREF"),
+    ("C12", "units-row-reordered", P + "rdnetwork.py", "                [\"units\", \"units_system\", \"units system\", \"u\"]", "                [\"units_system\", \"units\", \"units system\", \"u\"]", "C12.SCHEMA"),
+    ("C18", "units-text-trimmed", P + "units.py", "            u = parse_units(sys)\n            self.sys = u.sys", "            sys = sys.strip().rpartition(\" \")[2]\n            u = parse_units(sys)\n            self.sys = u.sys", "C18.RAW-TEXT"),
+    ("C19", "equation-arrows-replaced", P + "rdnetwork.py", "            self._fromstring(stoichiometry)", "            stoichiometry = stoichiometry.replace(\"=>\", \"->\")\n            self._fromstring(stoichiometry)", "C19.ACCUM"),
+    ("C20", "node-volume-kept-as-given", P + "rdgraphspace.py", "        self._volume = UnitValue(v, Units(sys=self.units_system, dim=volume_units_dimensions()), convert=False)", "        if type(v) == UnitValue :\n            self._volume = v.copy()\n        else :\n            self._volume = UnitValue(v, Units(sys=self.units_system, dim=volume_units_dimensions()), convert=False)", "C20.DIMS"),
+    ("C16", "cgmap-coerced", P + "simulate.py", "        cgscript = script.copy()\n", "        cgmap = [int(i) for i in cgmap]\n        cgscript = script.copy()\n", "C16.VALID-FIRST"),
     # ---- rules added in round 6
     ("C01", "rate-skips-zero-net-species", E + "SimulationAlgorithm3DBase.hpp", "        for(int s=0; s<n_species; s++)\n            r *= pow(mesh_x[mesh_index*n_species+s], sub[s*n_reactions+reaction_index]);", "        for(int s=0; s<n_species; s++)\n            {\n            if(sto[s*n_reactions+reaction_index] == 0) continue;\n            r *= pow(mesh_x[mesh_index*n_species+s], sub[s*n_reactions+reaction_index]);\n            }", "C01.PHASE"),
     ("C09", "t0-sample-overwritten", P + "librdengine.py", "            data[i] = data_[i]\n            \n        return UnitArray(value=data, ", "            data[i] = data_[i]\n        data[0:self._script.system.state_size()] = self._script.system.state.value\n            \n        return UnitArray(value=data, ", "C09.FETCH-PY"),
